@@ -328,7 +328,7 @@ theorem B_step (sc : Scripts) (fs : FState) (js : JState) (w : World) (c : Cmd) 
     · rename_i hcond
       intro hG hF
       simp only [Bool.and_eq_true, decide_eq_true_eq] at hcond
-      obtain ⟨⟨⟨⟨hu1, hu2⟩, _⟩, hint⟩, _⟩ := hcond
+      obtain ⟨⟨⟨⟨⟨hu1, hu2⟩, _⟩, hint⟩, _⟩, _⟩ := hcond
       have hmem : u ∈ js.ids := h.acc u hu1 hu2
       refine ⟨hG, ?_, ?_, ?_, h.acc, ?_, ?_, h.clean, h.mnb, hF⟩
       · constructor
@@ -382,7 +382,7 @@ theorem B_step (sc : Scripts) (fs : FState) (js : JState) (w : World) (c : Cmd) 
     · rename_i hcond
       intro hG hF
       simp only [Bool.and_eq_true, decide_eq_true_eq] at hcond
-      obtain ⟨⟨hu1, hu2⟩, _⟩ := hcond
+      obtain ⟨⟨⟨hu1, hu2⟩, _⟩, _⟩ := hcond
       -- the oracle state: clientOpen of u cleared when the close is observable
       have hjs : ∀ x, live (((if w.interactive u = true then [Ev.close u] else []).foldl judgeStep js).us.get x) = true →
           live (js.us.get x) = true ∧ x ≠ u := by
